@@ -63,6 +63,17 @@ def main(argv=None) -> int:
     pid = a.property
     if not pid:
         ap.error("--property required")
+    # watchdog: an analysis that does not terminate is an undecided analysis, never a hang of the caller
+    import signal
+
+    def _timeout(signum, frame):
+        print(f"ANALYSIS-ERROR property={pid} analysis did not finish within the time limit")
+        os._exit(2)
+    try:
+        signal.signal(signal.SIGALRM, _timeout)
+        signal.alarm(int(os.environ.get("RLXCHECK_TIMEOUT", "900" if a.tier == "quick" else "3000")))
+    except Exception:
+        pass
     try:
         repo = Repo(a.repo)
         ck = run_property(pid, a.tier, repo)
